@@ -790,6 +790,7 @@ func init() {
 				cs = append(cs, debugCases(eng, dbgFamily, vals, p, "prog:fixed", nil)...)
 			}
 			cs = append(cs, debugFacadeHistoryCases()...)
+			cs = append(cs, debugReentrantCases()...)
 			// the public entry point
 			feng := newEngine(nil)
 			for hi, h := range dbgHosts() {
